@@ -99,6 +99,11 @@ def main():
         vfields[name] = file.createVariable(name, "f4", ("time", "leadtime", "location"))
     file.long_name = ifile.variable.name
     file.units = unit = ifile.variable.units.replace("$", "")
+    # Keep the discrete masses of the variable (used by verif when randomizing PIT values)
+    if ifile.variable.x0 is not None:
+        file.x0 = ifile.variable.x0
+    if ifile.variable.x1 is not None:
+        file.x1 = ifile.variable.x1
     file.Convensions = "verif_1.0.0"
 
     for name in fields:
